@@ -16,8 +16,12 @@ fn replay(c: &Case, id: &str, seed: u64, extra: &str) -> String {
 }
 
 fn new_case(ctx: &mut Ctx, rng: &mut Rng, id: &str, npoly: usize) -> Option<Case> {
+    new_case_b(ctx, rng, id, npoly, true)
+}
+
+fn new_case_b(ctx: &mut Ctx, rng: &mut Rng, id: &str, npoly: usize, want_bounds: bool) -> Option<Case> {
     let max_d = if ctx.thorough { 48 } else { 20 };
-    match guarded(|| gen_case(rng, max_d, npoly, true, true)) {
+    match guarded(|| gen_case(rng, max_d, npoly, want_bounds, true)) {
         Ok(Ok(c)) => Some(c),
         Ok(Err(e)) | Err(e) => {
             ctx.rep.expect_fail(id, "marlin/in-domain-setup-refused", &format!("trim/commit refused an in-domain request: {}", e),
@@ -295,7 +299,7 @@ pub fn batch_mutations(ctx: &mut Ctx, prop: &str, n: usize) {
         if !ctx.selected(&id0) { continue; }
         let mut rng = rng_for(ctx.seed, &format!("{}/marlin-batch", prop), i as u64);
         let npoly = range(&mut rng, 2, 4);
-        let c = match new_case(ctx, &mut rng, &id0, npoly) { Some(c) => c, None => continue };
+        let c = match new_case_b(ctx, &mut rng, &id0, npoly, i % 3 != 1) { Some(c) => c, None => continue };
         let cs = match c.comm_scalars() { Some(x) => x, None => continue };
         let nl = range(&mut rng, 2, 3);
         let (mut qs, mut ev) = gen_queries(&mut rng, &c, nl);
